@@ -109,16 +109,17 @@ fn main() {
     install_quiet_panic_hook();
     watchdog("C01", args.pick(1200, 14400));
     let mut rep = Report::new("C01", "exploration", &args);
-    rep.rule = "random 1-4 step sequence programs (arrow and sequence() forms, optional `all` on one later step, constant and cross-alias filters, optional partition_by with int/string keys and key-less events, optional .not(N [where ..])) x random streams of 6-40 events over small value domains. Every emitted match is checked: known events, strictly increasing arrival order, step types, step filters under an independent evaluator, one partition value, no clause-satisfying negated event of the match's partition strictly inside. Non-trivial: (program, stream) with >=1 emitted match; distinct by (program text, stream).".into();
+    rep.rule = "random 1-4 step sequence programs (arrow and sequence() forms, optional `all` on one later step, constant and cross-alias filters incl. mixed int/float ordering comparisons (int field vs float literal / float alias field and vice versa, judged exactly on doubled integers), optional partition_by with int/string keys and key-less events, optional .not(N [where ..])) x random streams of 6-40 events over small value domains. Every emitted match is checked: known events, strictly increasing arrival order, step types, step filters under an independent evaluator, one partition value, no clause-satisfying negated event of the match's partition strictly inside. Non-trivial: (program, stream) with >=1 emitted match; distinct by (program text, stream).".into();
     rep.assume("for an `all` step the projected uid is the one the engine reports for that alias (the last accumulated event); the full Kleene combination is C03's subject");
     rep.assume(".not filters reference only constants and the first alias; for partitioned programs only negated events of the match's own partition count (C04-compatible reading)");
     let threads = ncpu();
-    let progs = args.pick(600usize, 30_000usize);
+    let progs = args.pick(1000usize, 12_000usize);
     let streams_per = args.pick(5usize, 10usize);
     let per_thread = progs / threads + 1;
     let parts = parallel(threads, args.seed ^ 0xC01, move |_ti, mut rng| {
         let mut out = Partial::default();
         let rt = rt();
+        MIXED_ATOMS.with(|m| m.set(true));
         let opts = GenOpts { allow_all: true, min_steps: 1, max_steps: 4 };
         for _ in 0..per_thread {
             let mut p = gen_prog(&mut rng, &opts, "S");
